@@ -3,6 +3,7 @@
 import json, os, re, glob
 root = os.path.dirname(os.path.dirname(os.path.abspath(__file__)))
 rows = []
+asbuilt = {}
 for d in sorted(glob.glob(os.path.join(root, "seeded", "*"))):
     m = json.load(open(os.path.join(d, "meta.json")))
     name = os.path.basename(d)
@@ -15,6 +16,7 @@ for d in sorted(glob.glob(os.path.join(root, "seeded", "*"))):
         first = "on purpose: judged outside the statement, see meta.json"
         if m.get("obsolete"):
             first = "no longer a fault on the repaired tree: " + m["obsolete"][:140] + "...; caught by " + ", ".join(m.get("caught_by_before_d643864", [])) + " before"
+    asbuilt[name] = not note.startswith("missed at first")
     rows.append(f"| {name} | {', '.join(os.path.basename(f) for f in m.get('files', []))} | {summ} | {needs} | {caught} ({first}) |")
 hand = """
 Hand-made changes applied while the checks were built (each killed by the quick tier, then reverted):
@@ -34,7 +36,7 @@ for r in rows:
     mm = re.search(r"-r(\d)-", rid)
     k = int(mm.group(1)) if mm else 1
     nb[k][0] += 1
-    nb[k][1] += "(as built)" in r
+    nb[k][1] += asbuilt[rid.strip()]
 table = ("Changes written by sub-agents that saw only the property text (section 4.2). Ids with -r2- are from a second\n"
          "round whose authors were told that single-site slips had all been caught and were asked for long sequences,\n"
          "narrow input regions, two cooperating edits, reuse/leak and error-path faults. Ids with -r3- are from a third\n"
@@ -55,7 +57,7 @@ table = ("Changes written by sub-agents that saw only the property text (section
          "reports a VIOLATION with the patch applied to /repo; \"as built\" means some check caught it before anything was\n"
          "changed, \"after strengthening\" that every check missed it at first and the owning check was extended (what was\n"
          "added is in the section 3 notes and in meta.json). Caught as built: round 1 %d of %d, round 2 %d of %d, round 3\n"
-         "%d of %d, round 4 %d of %d, round 5 %d of %d, round 6 %d of %d, round 7 %d of %d; all but the ones marked \"on purpose\" of the %d are caught by the checks as they are now (`tools/regress_mutants.sh` re-runs every filed change\n"
+         "%d of %d, round 4 %d of %d, round 5 %d of %d, round 6 %d of %d, round 7 %d of %d; all of the %d but the two marked \"on purpose\" and the two that stopped being faults are caught by the checks as they are now (`tools/regress_mutants.sh` re-runs every filed change\n"
          "against the checks recorded for it).\n\n" % (nb[1][1], nb[1][0], nb[2][1], nb[2][0], nb[3][1], nb[3][0], nb[4][1], nb[4][0], nb[5][1], nb[5][0], nb[6][1], nb[6][0], nb[7][1], nb[7][0], len(rows)) +
          "| id | file | change | needs | caught by |\n|---|---|---|---|---|\n" + "\n".join(rows) + "\n" + hand)
 p = os.path.join(root, "DESIGN.md")
